@@ -362,7 +362,10 @@ def run_cases(cases, workers: int | None = None, fresh: bool = False):
     """first pass with the normal per-case timeout; cases that time out are re-run, few at a time, with
     eight times the timeout before they are called a hang (a loaded machine must not look like a hang)"""
     res = _run_cases(cases, workers, fresh)
-    slow = [i for i, r in enumerate(res) if r.get('kind') == 'hang' and not cases[i].get('meta', {}).get('probe')]
+    # (the one probe that is MEANT to run out of time — the unbounded `$ENTER` count, known finding D19 — is not retried;
+    #  every other time-out, probes of other findings included, gets the second chance: on a loaded machine the deep-recursion
+    #  probe of D13 once took longer than the first limit and looked like a hang somewhere new)
+    slow = [i for i, r in enumerate(res) if r.get('kind') == 'hang' and cases[i].get('meta', {}).get('probe') != 'enter-huge']
     if slow:
         retry = [dict(cases[i], timeout=8 * float(cases[i].get('timeout', TIMEOUT))) for i in slow]
         rr = _run_cases(retry, min(4, len(retry)), True)
